@@ -88,6 +88,7 @@ type stepObs struct {
 var peers = []int{1, 2, 3}
 
 func runCase(c *vh.Ctx, t *testing.T, keys *scx.Keys, dataDir string, cs *caseSpec) (obs []stepObs, panicked string) {
+	keys.ResetCase()
 	synctest.Test(t, func(t *testing.T) {
 		panicked = vh.Recover(func() {
 			cfg := config.Default()
@@ -304,7 +305,7 @@ func genCmd(r *vh.Rand, kind string, nowUnix uint64) *scx.CmdSpec {
 	case 8:
 		s.Sig = "random"
 	default:
-		s.Sig = "valid"
+		s.Sig = "copied"
 	}
 	switch r.Intn(12) {
 	case 0, 1, 2:
@@ -409,6 +410,17 @@ func TestVerif(t *testing.T) {
 		do(&caseSpec{Signing: true, Sleeping: true, Why: "pending-wake-rejected", Frames: []frameSpec{
 			{Type: "wake", From: 1, Cmd: &scx.CmdSpec{Kind: "wake", Origin: 10, ID: 8, Sig: "bitflip"}},
 			{Type: "queued-wake", From: 1, Cmd: &scx.CmdSpec{Kind: "wake", Origin: 10, ID: 9, Sig: "zero"}},
+			{Type: "peer-up", From: 4, AdvanceMs: 1000}}})
+
+		// 5. signature bytes of an accepted command copied onto different commands (other id, origin, type, timestamp)
+		do(&caseSpec{Signing: true, Why: "copied-signature", Frames: []frameSpec{
+			{Type: "sleep", From: 1, Cmd: &scx.CmdSpec{Kind: "sleep", Origin: 10, ID: 1, Sig: "valid"}},
+			{Type: "wake", From: 2, AdvanceMs: 1000, Cmd: &scx.CmdSpec{Kind: "wake", Origin: 11, ID: 2, Sig: "copied"}},
+			{Type: "queued-sleep", From: 3, AdvanceMs: 1000, Cmd: &scx.CmdSpec{Kind: "sleep", Origin: 10, ID: 3, Sig: "copied", TsDelta: -7}},
+			{Type: "wake", From: 1, AdvanceMs: 1, Cmd: &scx.CmdSpec{Kind: "wake", Origin: 10, ID: 1, Sig: "copied", TsDelta: 1}}}})
+		do(&caseSpec{Signing: true, Sleeping: true, Why: "copied-signature", Frames: []frameSpec{
+			{Type: "wake", From: 1, Cmd: &scx.CmdSpec{Kind: "wake", Origin: 10, ID: 1, Sig: "valid"}},
+			{Type: "sleep", From: 2, AdvanceMs: 250, Cmd: &scx.CmdSpec{Kind: "sleep", Origin: 10, ID: 2, Sig: "copied"}},
 			{Type: "peer-up", From: 4, AdvanceMs: 1000}}})
 
 		n := c.N(500, 8000)
